@@ -15,8 +15,15 @@ p_isdir = z3.Function('is_dir', PATH.sort(), z3.BoolSort())
 p_isfile = z3.Function('is_file', PATH.sort(), z3.BoolSort())
 p_suffix = z3.Function('suffix_lower', PATH.sort(), ATOM.sort())
 p_content = z3.Function('content', PATH.sort(), BYTES.sort())
-p_text = z3.Function('text', PATH.sort(), STR.sort())
-p_oscat = z3.Function('os_path_join', ATOM.sort(), STR.sort(), PATH.sort())     # named by site *content*, not by the request
+def p_text(p):
+    return z3.Function('text', PATH.sort(), STR.sort())(p)
+
+
+def p_oscat(a, b):
+    """a path named by site *content*, not by the request"""
+    return z3.Function('os_path_join', ATOM.sort(), STR.sort(), PATH.sort())(a, b)
+
+
 lstrip = z3.Function('lstrip_slash', ATOM.sort(), ATOM.sort())
 W.declare_global('ghost.opened', SetOf(PATH))           # every path handed to open() by this call
 W.declare_global('ghost.opened_by_content', SetOf(PATH))  # those named by the content of an html file
